@@ -2,6 +2,7 @@ package checks
 
 import (
 	"fmt"
+	"strconv"
 	"strings"
 	"testing"
 
@@ -28,10 +29,17 @@ type C14Case struct {
 
 var exploreAll = refsel.Rec(-1, refsel.Union(refsel.Match(), refsel.All(refsel.Edge())))
 
+// mkPath builds a path from segment strings. A segment that is the canonical decimal form of a
+// non-negative integer is built with PathSegmentOfInt in about half of the positions (a deterministic
+// function of the path, so cases replay): the two forms are documented to be the same segment, for
+// list indices and for map keys alike.
 func mkPath(segs []string) datamodel.Path {
 	ps := make([]datamodel.PathSegment, len(segs))
 	for i, s := range segs {
 		ps[i] = datamodel.PathSegmentOfString(s)
+		if n, err := strconv.ParseInt(s, 10, 64); err == nil && n >= 0 && strconv.FormatInt(n, 10) == s && (i+len(segs)+int(s[len(s)-1]))%2 == 0 {
+			ps[i] = datamodel.PathSegmentOfInt(n)
+		}
 	}
 	return datamodel.NewPath(ps)
 }
